@@ -259,6 +259,23 @@ FRAME_FIXED = [
     {"start": {"parse": ["names", "a 0"]}, "kind": "copy.copy",
      "steps": [{"who": "copy", "path": [], "op": ["setname", "x", {"s": "new"}]},
                {"who": "copy", "path": [], "op": ["delname", "y"]}]},
+    # merging names the source already has into a copy (+= / extend): the source keeps its own values
+    # (copy() shares the occurrence lists; __setitem__ must not append to them in place — seeded change C10-1)
+    {"start": {"parse": ["names", "a 0"]}, "kind": "copy",
+     "steps": [{"who": "copy", "path": [], "op": ["iadd", {"parse": ["names", "ab 10"]}]},
+               {"who": "copy", "path": [], "op": ["extendpr", {"parse": ["dupname", "a 0 b 1"]}]}]},
+    {"start": {"parse": ["listall", "a 0 b"]}, "kind": "copy.copy",
+     "steps": [{"who": "copy", "path": [], "op": ["iadd", {"parse": ["listall", "b 11 ab"]}]},
+               {"who": "original", "path": [], "op": ["extendpr", {"parse": ["mixed", "a 0 b"]}]}]},
+    {"start": {"parse": ["recs", "a 0 b 1"]}, "kind": "deepcopy",
+     "steps": [{"who": "copy", "path": [], "op": ["iadd", {"parse": ["recs", "a 0"]}]}]},
+]
+
+# operand triples that share names (a + b, sum(), += on a copy must leave every operand as it was)
+CONCAT_FIXED = [
+    {"objs": [{"parse": ["names", "a 0"]}, {"parse": ["names", "ab 10"]}, {"parse": ["dupname", "a 0 b 1"]}]},
+    {"objs": [{"parse": ["listall", "a 0 b"]}, {"parse": ["listall", "b 11 ab"]}, {"parse": ["mixed", "a 0 b"]}]},
+    {"objs": [{"parse": ["recs", "a 0"]}, {"parse": ["recs", "a 0 b 1"]}, {"parse": ["recs", "a 0"]}]},
 ]
 
 
@@ -277,6 +294,13 @@ def concat_check(pp, case, allow_region=False):
     snaps = [snapshot(pp, x) for x in (a, b, c)]
     sa, sb, sc = (prlib.Spec.of_start(pp, s) for s in case["objs"])
     ab = a + b
+    if [snapshot(pp, x) for x in (a, b, c)] != snaps:
+        return ("a + b changed an operand", snaps[:2], [snapshot(pp, x) for x in (a, b)])
+    t0 = a.copy()
+    t0 += b
+    t0.extend(c)
+    if [snapshot(pp, x) for x in (a, b, c)] != snaps:
+        return ("t = a.copy(); t += b; t.extend(c) changed a, b or c", snaps, [snapshot(pp, x) for x in (a, b, c)])
     exp = prlib.Spec(sa.toks, sa.names, sa.la)
     exp.merge(sb)
     got = prlib.views_real(pp, ab)
@@ -385,7 +409,14 @@ def from_dict_check(pp, d):
 # ---- sharing table: heap model (PPModel/Mod/PRHeap.lean `sharing`) vs the real class ------------------------
 SHARE_KINDS = ["copy", "copy.copy", "deepcopy"]
 SHARE_PROBES = ["own-append", "own-setname", "own-deltok", "own-insert", "own-delname", "own-clear", "orig-append",
-                "orig-setname", "nested-via-token", "nested-via-name"]
+                "orig-setname", "nested-via-token", "nested-via-name", "own-iadd-shared-name", "orig-iadd-shared-name"]
+
+
+def _named(pp, name, value):
+    """a result without tokens that binds `name` to `value`"""
+    r = pp.ParseResults([])
+    r[name] = value
+    return r
 
 
 def sharing_real(pp, kind, probe):
@@ -410,6 +441,10 @@ def sharing_real(pp, kind, probe):
         r.append("z")
     elif probe == "orig-setname":
         r["x"] = "new"
+    elif probe == "own-iadd-shared-name":
+        c += pp.ParseResults(["new"], "x", asList=False) + pp.ParseResults([], "g") + _named(pp, "g", "new")
+    elif probe == "orig-iadd-shared-name":
+        r += pp.ParseResults(["new"], "x", asList=False) + _named(pp, "g", "new")
     elif probe == "nested-via-token":
         c[0].append("z")
     elif probe == "nested-via-name":
@@ -437,8 +472,8 @@ def run(ctx):
                        "original unchanged", bad, theorem="C11 frame (oracle only)", signature=SIG_DEEP)
     w = concat_check(pp, ASSOC_WITNESS, allow_region=True)
     if w is not None and w != "region":
-        ctx.fail_input("concatenation is not associative when an empty operand carries a list-all name",
-                       ASSOC_WITNESS, w[1], w[2], theorem="PP.PR.concat_assoc_former_witness")
+        ctx.fail_input("concatenation law broken (former finding's operands: an empty operand carries a list-all "
+                       "name): " + w[0], ASSOC_WITNESS, w[1], w[2], theorem="PP.PR.concat_assoc_former_witness")
     nfix = 2
     for case in FRAME_FIXED:
         nfix += 1
@@ -479,8 +514,16 @@ def run(ctx):
     rng = ctx.subrng("concat")
     cases, lines, impl = [], [], []
     nreg = 0
+    gen_cases = []
     for _ in range(ctx.budget(1200, 12000)):
-        case = {"objs": [c10.gen_start(rng, pp, 1) for _ in range(3)]}
+        if rng.random() < 0.3:
+            # operands that share names: the same grammar parsed on different inputs
+            gs = prlib.grammars(pp)
+            g = rng.choice(sorted(gs))
+            gen_cases.append({"objs": [{"parse": [g, rng.choice(gs[g][1])]} for _ in range(3)]})
+        else:
+            gen_cases.append({"objs": [c10.gen_start(rng, pp, 1) for _ in range(3)]})
+    for case in CONCAT_FIXED + gen_cases:
         res = concat_check(pp, case)
         if res == "region":
             nreg += 1
